@@ -382,10 +382,29 @@ pub fn in_pool_budgeted<T: Send>(threads: usize, budget: Arc<RngBudget>, f: impl
             ),
         }
     };
-    let b2 = budget.clone();
-    p.broadcast(move |_| set_rng_budget(Some(b2.clone())));
-    let r = catch_unwind(AssertUnwindSafe(|| p.install(f)));
-    p.broadcast(|_| set_rng_budget(None));
+    let r = if threads <= 1 {
+        // a single worker: set the budget on that thread inside the job (no broadcast round trips)
+        let b2 = budget.clone();
+        catch_unwind(AssertUnwindSafe(|| {
+            p.install(move || {
+                set_rng_budget(Some(b2));
+                struct Reset;
+                impl Drop for Reset {
+                    fn drop(&mut self) {
+                        set_rng_budget(None);
+                    }
+                }
+                let _reset = Reset;
+                f()
+            })
+        }))
+    } else {
+        let b2 = budget.clone();
+        p.broadcast(move |_| set_rng_budget(Some(b2.clone())));
+        let r = catch_unwind(AssertUnwindSafe(|| p.install(f)));
+        p.broadcast(|_| set_rng_budget(None));
+        r
+    };
     pool_store().lock().unwrap().entry(threads).or_default().push(p);
     match r {
         Ok(v) => v,
